@@ -421,7 +421,9 @@ func (e *Evaluator) evalArrayLiteral(arr *parser.ArrayLiteral) (value, error) {
 
 func (e *Evaluator) evalMapLiteral(m *parser.MapLiteral) (value, error) {
 	pairs := map[string]value{}
-	for key, node := range m.Pairs {
+	// Evaluate the values in source order, not in Go's random map order.
+	for _, key := range m.Order {
+		node := m.Pairs[key]
 		val, err := e.eval(node)
 		if err != nil {
 			return nil, err
